@@ -600,8 +600,10 @@ def chain_real_answer(real):
     """the real outcome in the model's output vocabulary"""
     if real['status'] != 'ok':
         return 'err'
+    # last item: the hypothesis `chainSelOk` of the theorems (the recorded Path.test() results are
+    # results that function can return) must hold on the real code
     return ['ok', [[m, e] for m, e in real['marked']], [[i, b] for i, b in sorted(real['bufs'].items())],
-            unmark(real['marked'])]
+            unmark(real['marked']), True]
 
 
 def chain_model_answer(ans):
@@ -610,7 +612,7 @@ def chain_model_answer(ans):
     v = proto.dec(ans)
     marked = [[None if m == 'N' else str(m), u_event(e)] for m, e in v[1]]
     bufs = [[int(i), [u_event(e) for e in b]] for i, b in v[2]]
-    return ['ok', marked, bufs, [u_event(e) for e in v[3]]]
+    return ['ok', marked, bufs, [u_event(e) for e in v[3]], v[4] == 'T']
 
 
 def w_scalar(v):
@@ -670,6 +672,29 @@ def gen_cases(rng, n):
     return cases
 
 
+GOOD_ONLY = ('empty', 'remove', 'unwrap', 'wrap', 'replace', 'before', 'after', 'prepend', 'append', 'rename',
+             'copy', 'cut')
+
+
+def in_theorem_class(ops):
+    """mirror of `Admissible true ops` (Genshi/Lemmas/TfChain.lean): the chains covered by
+    chain_wellnested_partial"""
+    good = True
+    for op in ops:
+        n = op[0]
+        if n == 'filter':
+            return False
+        if n in INJ and op[1][0] == 'buf':
+            return False
+        if not good and n in GOOD_ONLY:
+            return False
+        if n in ('select', 'end'):
+            good = True
+        elif n == 'invert':
+            good = False
+    return True
+
+
 def chain_key(case, real):
     """distinct non-trivial chain: (operation names, path strings, marks that occur)"""
     marks = sorted(set(m for m, _ in real['marked'] if m))
@@ -694,6 +719,7 @@ def process(cases, res):
                 res.count('chain-status:' + real['status'] + (':' + real['err'] if real['err'] else ''))
                 hits = [sum(1 for _, r in v if r is True or r) for _, v in sorted(real['rec'].items())]
                 res.count('first-select:' + ('matches' if hits and hits[0] else 'empty'))
+                res.count('chain:' + ('in' if in_theorem_class(c['ops']) else 'outside') + '-chain_wellnested_partial')
                 if not G.admissible(c['ops']):
                     res.count('chain:outside-nesting-precondition')
                 k = chain_key(c, real)
